@@ -143,6 +143,10 @@ class Report:
         self.t0 = time.time()
 
     def rule(self, rid, desc, floor=None, analysis=None):
+        if rid in self.rules:      # a shared rule function registered under one id for two clauses: keep the counts
+            self.rules[rid]['desc'] += ' / ' + desc
+            self.rules[rid]['floor'] = max(self.rules[rid]['floor'] or 0, floor or 0) or None
+            return
         self.rules[rid] = {'desc': desc, 'floor': floor, 'instances': 0, 'violations': 0, 'analysis': analysis}
         return rid
 
